@@ -244,7 +244,15 @@ impl<T, Ptr: PointerFamily> MetaSlotMap<T, Ptr> {
             return;
         }
 
+        // an occupied key is not part of the free list, its stale links must not be followed
+        if self.idx_to_data[idx] != INVALID {
+            return;
+        }
+
         let entry = self.idx_to_data_free_list[idx];
+        if self.idx_to_data_free_list_head == idx {
+            self.idx_to_data_free_list_head = entry.next;
+        }
         if entry.previous != INVALID {
             self.idx_to_data_free_list[entry.previous].next = entry.next;
         }
@@ -290,7 +298,7 @@ impl<T, Ptr: PointerFamily> MetaSlotMap<T, Ptr> {
 
     pub(crate) unsafe fn store_value(&mut self, key: SlotMapKey, value: T) -> bool {
         self.verify_init("store()");
-        if key.0 > self.capacity_impl() {
+        if key.0 >= self.capacity_impl() {
             return false;
         }
 
@@ -311,7 +319,7 @@ impl<T, Ptr: PointerFamily> MetaSlotMap<T, Ptr> {
 
     pub(crate) unsafe fn remove_impl(&mut self, key: SlotMapKey) -> Option<T> {
         self.verify_init("remove()");
-        if key.0 > self.idx_to_data.len() {
+        if key.0 >= self.capacity_impl() {
             return None;
         }
 
